@@ -3,6 +3,7 @@ package main
 import (
 	"bytes"
 	"fmt"
+	"strings"
 )
 
 // ---------------- C07 ----------------
@@ -99,6 +100,24 @@ func runC07(c *runCfg) error {
 		}
 		if p < 0 {
 			break
+		}
+	}
+	// long names: 63, 64, 65 and 300 bytes, and pairs of names that share their first 63 (and 64) bytes are
+	// different names — defining, re-defining and closing one does not touch the other
+	{
+		lcfg := namesCfg()
+		lcfg.limit = 4096
+		for _, n := range []int{62, 63, 64, 65, 300} {
+			a := []byte(strings.Repeat("n", n) + "_one")
+			b := []byte(strings.Repeat("n", n) + "_two")
+			for _, h := range [][][]byte{
+				{mParse(a, []byte("q1"), 0), mParse(b, []byte("q2"), 0), mDescribe('S', a), mDescribe('S', b), mBind(a, a, nil, nil, nil), mBind(b, b, nil, nil, nil), mExecute(a, 0), mExecute(b, 0), mSync()},
+				{mParse(a, []byte("q1"), 0), mParse(b, []byte("q2"), 0), mClose('S', b), mDescribe('S', a), mBind(a, a, nil, nil, nil), mClose('P', b), mExecute(a, 0), mSync(), mDescribe('S', b), mSync()},
+				{mParse(a, []byte("q2"), 0), mBind(a, a, nil, nil, nil), mBind(b, a, nil, nil, []int{1}), mClose('P', a), mExecute(b, 0), mDescribe('P', a), mSync()},
+			} {
+				emitSession(c, lockCase(id, "long_names", lcfg, stdStartup, h))
+				id++
+			}
 		}
 	}
 	// names, portals and bound values are used again after kilobytes of other traffic on the connection (queries
@@ -390,6 +409,38 @@ func runC08(c *runCfg) error {
 	return nil
 }
 
+// Sync and Flush messages that carry a body (legal framing) inside a COPY: within the limit the body belongs to the
+// ignored message — whatever it spells (a CopyData smuggling a row in, a CopyDone ending the copy early); above the
+// limit the message is refused like any oversized message, its body skipped in full. Used by C13, C03 and C10.
+func copyBodyCases(limit int) (cfgT, [][][]byte) {
+	prog := []opT{{kind: "copyin", fmt: 0}}
+	for i := 0; i < 6; i++ {
+		prog = append(prog, opT{kind: "copyread"})
+	}
+	prog = append(prog, opT{kind: "complete", tag: []byte("COPY")})
+	st := stmtT{id: 8, cols: textCols(1), prog: prog, stop: true, ret: "last"}
+	cfg := cfgT{limit: limit, auth: "none", term: "none", parse: []parseEntry{{query: []byte("copy"), stmts: []stmtT{st}}, {query: []byte("select 1"), stmts: simpleCfg(limit).parse[0].stmts}}}
+	smuggleData := mCopyData([]byte("666"))
+	smuggleDone := mCopyDone()
+	big := make([]byte, limit+9)
+	copy(big, cat(mCopyData([]byte("777")), mCopyDone(), mQuery([]byte("select 1"))))
+	var out [][][]byte
+	for _, t := range []byte{'S', 'H'} {
+		for _, ext := range []bool{false, true} {
+			lead := [][]byte{mQuery([]byte("copy"))}
+			if ext {
+				lead = [][]byte{mParse(nil, []byte("copy"), 0), mBind(nil, nil, nil, nil, nil), mExecute(nil, 0)}
+			}
+			for _, body := range [][]byte{smuggleData, smuggleDone, {0}, cat(smuggleDone, mQuery([]byte("select 1"))), big} {
+				msgs := append([][]byte{}, lead...)
+				msgs = append(msgs, mCopyData([]byte("1")), msg(t, body), mCopyData([]byte("2")), mCopyDone(), mSync(), mQuery([]byte("select 1")))
+				out = append(out, msgs)
+			}
+		}
+	}
+	return cfg, out
+}
+
 // ---------------- C13 ----------------
 func init() { runners["C13"] = runC13 }
 
@@ -511,6 +562,31 @@ func runC13(c *runCfg) error {
 				emitSession(c, lockCase(id, "eof_like_error", cfg, stdStartup, msgs))
 				id++
 			}
+		}
+	}
+	{
+		bcfg, hs := copyBodyCases(limit)
+		for _, h := range hs {
+			emitSession(c, lockCase(id, "sync_flush_bodies", bcfg, stdStartup, h))
+			id++
+		}
+	}
+	// a handler that copies in twice on one result writer (two rounds, other format): each round is announced by its
+	// own CopyInResponse with the format requested for that round
+	for _, f := range [][2]int{{0, 1}, {1, 0}, {0, 0}, {1, 1}} {
+		for _, ext := range []bool{false, true} {
+			prog := []opT{{kind: "copyin", fmt: f[0]}, {kind: "copyread"}, {kind: "copyread"}, {kind: "copyin", fmt: f[1]}, {kind: "copyread"}, {kind: "copyread"}, {kind: "copyread"}, {kind: "complete", tag: []byte("COPY 3")}}
+			st := stmtT{id: 6, cols: textCols(2), prog: prog, stop: false, ret: "nil"}
+			cfg := cfgT{limit: limit, auth: "none", term: "none", parse: []parseEntry{{query: []byte("copy"), stmts: []stmtT{st}}, {query: []byte("select 1"), stmts: simpleCfg(limit).parse[0].stmts}}}
+			var msgs [][]byte
+			if ext {
+				msgs = append(msgs, mParse(nil, []byte("copy"), 0), mBind(nil, nil, nil, nil, []int{1}), mExecute(nil, 0))
+			} else {
+				msgs = append(msgs, mQuery([]byte("copy")))
+			}
+			msgs = append(msgs, mCopyData([]byte("first")), mCopyDone(), mCopyData([]byte("second")), mFlush(), mCopyData([]byte("third")), mCopyDone(), mSync(), mQuery([]byte("select 1")))
+			emitSession(c, lockCase(id, "two_copies", cfg, stdStartup, msgs))
+			id++
 		}
 	}
 	// wide tables: the CopyInResponse announces one format code per declared column, whatever the count
